@@ -27,5 +27,19 @@ s = open(p).read()
 if "SEEDED_TABLE" in s and "<!-- SEEDED_TABLE_BEGIN -->" not in s:
     s = s.replace("SEEDED_TABLE", "<!-- SEEDED_TABLE_BEGIN -->\n<!-- SEEDED_TABLE_END -->")
 s = re.sub(r"<!-- SEEDED_TABLE_BEGIN -->.*?<!-- SEEDED_TABLE_END -->", "<!-- SEEDED_TABLE_BEGIN -->\n" + table + "\n<!-- SEEDED_TABLE_END -->", s, flags=re.S)
+# ---- behaviour-preserving variants (section 14) ----
+nrows = []
+for mpath in sorted(glob.glob(os.path.join(VERIF, "neutral", "*", "meta.json"))):
+    m = json.load(open(mpath))
+    patch = open(os.path.join(os.path.dirname(mpath), "patch.diff")).read()
+    files = sorted(set(re.findall(r"^\+\+\+ b/(\S+)", patch, re.M)))
+    added = len(re.findall(r"^\+[^+]", patch, re.M)); removed = len(re.findall(r"^-[^-]", patch, re.M))
+    res = "; ".join("%s exit %d (%ss)" % (k, v["exit"], int(v["wall_s"])) for k, v in sorted(m.get("check_results", {}).items())) or "not run yet"
+    nrows.append("| %s | %s | %s (+%d/-%d) | %s | %s |" % (m["name"], m["property"], ", ".join(os.path.basename(f) for f in files), added, removed,
+                                                     m.get("needs", "").replace("|", "/"), ("**quiet**: " if m.get("quiet") else "**ALARM**: ") + res))
+ntable = "| name | property | changed | what the variant does differently | registered checks (full quick tier) |\n|---|---|---|---|---|\n" + "\n".join(nrows)
+if "<!-- NEUTRAL_TABLE_BEGIN -->" in s:
+    s = re.sub(r"<!-- NEUTRAL_TABLE_BEGIN -->.*?<!-- NEUTRAL_TABLE_END -->", "<!-- NEUTRAL_TABLE_BEGIN -->\n" + ntable + "\n<!-- NEUTRAL_TABLE_END -->", s, flags=re.S)
 open(p, "w").write(s)
 print(table)
+print(ntable)
